@@ -211,3 +211,11 @@ claim("C29", "abstract interpretation of the row-wise array updates into a symbo
       "Sampled covariances over whole grids, time-varying parameters beyond this structure and numerical accuracy are not decided.",
       TRUST + " sympy 1.14 (offline wheelhouse) as algebraic normaliser; the SDE covariance table is the checker's own (textbook formulas).",
       "DESIGN.md section 9.8")
+
+claim("C35", "structural rules over AST/CFG with mode specialisation: index-set pairing of gather/scatter, coverage of uninitialised allocations, sibling comparison of forward/adjoint (index, weight) pairs, term inlining of the interpolation weights",
+      "Decides only the structural clause: MaskOperator selects the negation of the flags, gathers/scatters through that one index "
+      "and zeroes the complement of an uninitialised result; FieldZeroPadder pads/crops the leading block (or the two central "
+      "halves, same slices in both directions, the adjoint accumulating the overlap); RegriddingOperator uses the same (index, weight) "
+      "pairs forward and adjoint with weights (1-w, w) and b clamped to shape-2; LinearInterpolator builds its matrix from ONE floor "
+      "(base cell and excess), corner weights prod|1-c-e|, wrapped flat column index of base+corner, forward matvec / adjoint rmatvec. "
+      "Line-of-sight integrals, non-uniform FFTs and all numerical accuracy are not decided.", TRUST, "DESIGN.md section 9.8")
